@@ -19,8 +19,8 @@ Variable yl : str -> option val.
    7 = enum-member-null                 : an Enum member whose name is `null` *)
 Definition skipdef_class (vr : variant) (lf : leaf) (w : val) : N :=
   if vr_skip_default vr then
-    match cleanup yl true (vr_skip_none vr) (lf_ty lf) w,
-          cleanup yl false (vr_skip_none vr) (lf_ty lf) (lf_def lf) with
+    match cleanup yl true (vr_skip_none vr) (lf_ty lf) (lf_def lf) w,
+          cleanup yl false (vr_skip_none vr) (lf_ty lf) (lf_def lf) (lf_def lf) with
     | EPresent j, EPresent dj =>
         if py_eq j dj then (if veq (lf_def lf) w then 0%N else 3%N)
         else if val_eqb (trim_rec j dj) j then 0%N else 2%N
